@@ -160,13 +160,21 @@ def run(ctx, chk):
                  % (badsel or 'one engine is never selected', sorted(sel['jit']), sorted(sel['interp'])), file, None)
     nd = sorted(set(c[0] for c in pd.callers(IRCB)))
     nj = sorted(set(c[0] for c in pj.callers(IRCB)))
-    if nd == [RCB] and nj == [RCB]:
+    if nd and nj and set(nd) <= families(pd, [RCB]) and set(nj) <= families(pj, [RCB]):
         chk.ok('C04.2', 'same-interpreter', sample={'callers of interpreter::run_code_block': nd})
     else:
         chk.fail('C04.2', 'same-interpreter', 'interpreter::run_code_block is called from %s (non-jit) / %s (jit)' % (nd, nj),
                  file, None)
     # ---- rule 3
     block_rules(ctx, chk, fd, fj)
+    # ---- rule 4: what a translated instruction computes (the reduction to C01/C02, decided here as well so that this
+    # check does not depend on another one having been run)
+    chk.rule('C04.4', 'D', 'value level: for every encoding the emitted x86 code leaves registers, flags, PC, SP, the ordered '
+             'bus accesses and the cycle count equal to the interpreter for every operand (same comparison as C01.10 / '
+             'C02.4)', floor=400)
+    from .. import jitsem
+    jitsem.apply_rule(ctx, chk, 'C04.4', lambda c: True)
+    jitsem.apply_frame_rule(ctx, chk, 'C04.4', lambda c: True)
     chk.assumptions += ['per-step equality of device state is not claimed; C04 inherits the limits of C01-C03 (no x86 '
                         'semantics of template bytes)']
     return chk.finish('Comparison of the step tail of Core::run_code_block / Core::update between the default and jit '
